@@ -133,6 +133,9 @@ func checkC01(e *Env) {
 		return ""
 	})
 
+	// the concurrent flavour of this monitor (C12 is the full treatment)
+	concCalls := e.concurrentSmoke(drv, "C01", e.smokePool("C01", "enc"), e.pick(2, 12), e.pick(300, 1500))
+
 	// completeness of the enumerated factors
 	possible, firstPositions, firstSeen := 0, 0, 0
 	for s, size := range ref.EntSizes {
@@ -162,10 +165,11 @@ func checkC01(e *Env) {
 		}
 	}
 	e.WriteEvidence("exploration", map[string]any{
-		"evaluations":         stats.Ops,
-		"distinct_nontrivial": dist.Len(),
-		"rule":                "cases = walking-index entropies (every (position,index) pair of the first n-1 words), boundary bit/byte runs, and seeded random entropies continued until every SHA-256 first-byte value was seen per width (thorough: every index at the last position); a case is the pair (entropy, language); all are non-trivial (each is compared byte-for-byte with the independent bit-array encoder over the golden lists); distinct = distinct (entropy, language) pairs",
-		"samples":             smp.List(),
+		"evaluations":                      stats.Ops,
+		"distinct_nontrivial":              dist.Len(),
+		"calls_repeated_under_concurrency": concCalls,
+		"rule":                             "cases = walking-index entropies (every (position,index) pair of the first n-1 words), boundary bit/byte runs, and seeded random entropies continued until every SHA-256 first-byte value was seen per width (thorough: every index at the last position); a case is the pair (entropy, language); all are non-trivial (each is compared byte-for-byte with the independent bit-array encoder over the golden lists); distinct = distinct (entropy, language) pairs",
+		"samples":                          smp.List(),
 		"position_index_pairs_seen_first_positions":         firstSeen,
 		"position_index_pairs_possible_first":               firstPositions,
 		"last_position_indices_seen":                        lastSeen,
